@@ -381,6 +381,15 @@ func targets() []*target {
 		{pkg: slogPkg, recv: "", fn: "SetMessageMinimalWidth", coq: "set_message_minimal_width", file: "Layout", strict: true, fallback: "LayoutRef.set_message_minimal_width_ref",
 			comment: "(returns minimalMessageWidth)", params: []string{"(g_minimalMessageWidth : Z)", "(w : Z)"}, result: "Z", final: "g_minimalMessageWidth"},
 
+		// ---- the flag word (every target above renders IsAnyBitsSet(F) as negb (Z.land g_flags F =? 0): here is the function itself) ----
+		{pkg: slogPkg, recv: "", fn: "IsAnyBitsSet", coq: "is_any_bits_set", file: "Layout", strict: true, fallback: "LayoutRef.is_any_bits_set_ref",
+			params: []string{"(g_flags : Z)", "(f : Z)"}, result: "bool", final: "false"},
+		{pkg: slogPkg, recv: "", fn: "IsAllBitsSet", coq: "is_all_bits_set", file: "Layout", strict: true, fallback: "LayoutRef.is_all_bits_set_ref",
+			params: []string{"(g_flags : Z)", "(f : Z)"}, result: "bool", final: "false"},
+		{pkg: slogPkg, recv: "", fn: "AddFlags", coq: "add_flags", file: "Layout", strict: true, fallback: "LayoutRef.add_flags_ref",
+			comment: "(returns flags)", calls: map[string]callSpec{"Verbose": {ignore: true}},
+			params: []string{"(g_flags : Z)", "(flagsToAdd : list Z)"}, result: "Z", final: "g_flags"},
+
 		// ---- the skeleton of printImpl after the blank-line rule (C02, C04-C06, C14): which part printers run,
 		// in what order, under which mode bit / flag; the level colours; ONE printOut of pc.Bytes() after End.
 		// The part printers are parameters over the context pc (LayoutRef.pcs)
